@@ -29,7 +29,7 @@ func f12() {
 	}{
 		{"validate", []src{{"workflow/workflow.go", set("validate", "Validate", "addOrErrKey")}, {"coercion.go", set("Submit", "populate")}}},
 		{"builder", []src{{"workflow/builder/builder.go", nil}}},
-		{"secure", []src{{"workflow/utils/clone/secure.go", nil}}},
+		{"secure", []src{{"workflow/utils/clone/secure.go", nil}, {"plugins/registry/registry.go", set("Register", "findSecrets", "hasTag", "getTags")}}},
 		{"clone", []src{{"workflow/utils/clone/clone.go", set("Plan", "Checks", "Block", "Sequence", "Action", "cloneState", "cloneAttempts", "cloneErr")}}},
 		{"walk", []src{{"workflow/utils/walk/walk.go", nil}}},
 		{"startup", []src{{"internal/execute/recovery.go", nil}}},
